@@ -16,6 +16,38 @@ CLAIMED = {
          "miniredis stands in for a Redis server (real command semantics incl. Lua); lifetimes chosen by a backend for implicitly created keys are not compared; expiry-boundary instants are never generated",
          "deterministic simulation: seeded scheduler at statement granularity + simulated clock; reference-model and cross-backend differential oracles; porcupine linearizability check"),
 }
+
+DS="deterministic simulation: seeded scheduler over instrumented yield points, simulated clock/network/storage with fault injection; "
+CLAIMED.update({
+ "C06": ("exploration", "DESIGN.md §4 C06",
+   "Concurrent activate/revoke/expire histories on one or two connection codes through the real conncode.Service, repositories and PortMappingService on 1-2 nodes over one shared simulated store (memory or Redis); interleavings at storage-operation granularity, sampled single storage-write failures and node crashes between two durable operations; oracle over call results and the final store: at most one successful activation and one mapping per code, only while valid, right target/listener, nothing left after a failed activation.",
+   "fault positions are sampled per run, not enumerated from a pilot; tiered backend not used here",
+   DS+"storage-operation interleavings + write-failure/crash injection, conservation oracle over results and final store"),
+ "C09": ("exploration", "DESIGN.md §4 C09",
+   "Real RoutingTable instances on 2-3 nodes over memory / Redis (miniredis) / tiered backends with hostile record fields and waiting periods crossed by the simulated clock (reference table + cross-backend differential), concurrent register/lookup/remove checked with porcupine, and the real startSourceBridge/runBridgeLifecycle/lookupTunnelRouting lifecycle with storage faults and source-node crashes: a waiting tunnel resolves to exactly what was registered from every node and never after it ended or lapsed.",
+   "cross-node forwarding over real TCP (TunnelConnectionManager) is not simulated",
+   DS+"reference-table, differential and porcupine oracles over register/lookup/remove/expire histories"),
+ "C10": ("exploration", "DESIGN.md §4 C10",
+   "Frame codec and runBidirectionalForward over simulated links inside the bubble (every encoded frame decodes to itself under every chunking; half-close forwarding delivers everything); FrameStream over a real loopback TCP pair with a harness-owned wire in lock-step outside the bubble (prefix/complete/EOF, foreign and unknown frames, truncation at every offset class); decoder allocation bound on hostile byte strings.",
+   "FrameStream/Conn are typed *net.TCPConn, so that half runs on real loopback sockets in lock-step (kernel in the path, no timers in the code); pool and listener accept loop are not exercised",
+   DS+"plus lock-step driver over loopback TCP for the *net.TCPConn-typed stream; prefix/completeness oracle"),
+ "C12": ("exploration", "DESIGN.md §4 C12",
+   "Real iocopy.Bidirectional, iocopy.UDP and client tunnel.Tunnel between simulated application and tunnel endpoints: position-stamped payloads and datagram sequences, all chunkings, every order of half-close/close/reset, tunnel cuts at every class of offset relative to the length-prefixed records (inside prefix, after prefix, inside payload, at boundary), rate-limit transformer, long-lived tunnels on the simulated clock; oracles: prefix/complete delivery both ways, reverse direction survives half-close, datagram boundaries/content/order, the relay returns within a bounded simulated time after the tunnel ended.",
+   "real *net.UDPConn / UDPVirtualConn and the sendmmsg batch path are replaced by a message-preserving simulated endpoint",
+   DS+"cut-offset fault sampling on the tunnel stream; prefix and bounded-termination oracles"),
+ "C14": ("exploration", "DESIGN.md §4 C14",
+   "Real hybrid.Storage over gate-controlled tier doubles (node-local cache, shared cache, persistent map) in the topologies the server factory wires, 2-4 clients on 1-2 nodes issuing Set/Get/Delete/Exists and list append/remove per key-prefix category; every tier operation and the asynchronous cache write-back are scheduling points; single tier failures; oracles: per-key register linearizability (no value older than one already overwritten), list membership = appended - removed, placement per category read off the doubles.",
+   "the cluster cache is a second memory backend (not Redis); fault position is drawn from the first operations of a run rather than enumerated",
+   DS+"tier-operation interleavings incl. async write-back, tier-fault injection; linearizability/list-conservation/placement oracles"),
+ "C18": ("exploration", "DESIGN.md §4 C18",
+   "Real BruteForceProtector, IPManager (on a simulated store) and RateLimiter with their cleanup tickers and asynchronous unban/removal goroutines on the simulated clock; 2-3 caller tasks replay per-address timelines of failures, successes, gate checks, manual bans, blacklist/whitelist changes and registrations with gaps placed around window/ban/cleanup periods; reference timeline oracle: must-refuse within a ban, forever after the permanent threshold, never below the threshold; blacklisted always refused; admissions bounded by burst + rate*t.",
+   "the gate order of ServerAuthHandler.HandleHandshake is re-enacted by the harness on the real components (C03 drives the real handler)",
+   DS+"statement-level interleavings with async cleanup paths; reference-timeline oracle"),
+ "C20": ("exploration", "DESIGN.md §4 C20",
+   "Real socks5.Listener handshake/handleConnection and the SocksAdapter negotiation read from a simulated stream fed by a scripted application: structured and mutated RFC 1928/1929 messages under every segmentation law, pipelined or reply-paced, truncated at a drawn offset then EOF/reset/silence; oracle: an independent reference parser written from the RFC (decision, command, host, port, reply bytes, bytes consumed, trailing bytes intact, verdict timing). The UDP-associate header parse/build differential has no schedule in it and runs as labelled pure input enumeration.",
+   "the UDP header half is a pure function of its input (reported as pure_input_runs); the claim rests on the negotiation half",
+   DS+"segmentation/truncation faults on the stream; RFC reference-parser differential oracle"),
+})
 props=[json.loads(l) for l in open('/verif/properties.jsonl')]
 checks=[]
 na=[]
